@@ -31,6 +31,10 @@ RULE = (
     'invariant check, retry. Non-trivial: identical content stored twice '
     'under different keys (history), or a crash at or after the move (crash). '
     'Distinct = SHA-1 of case JSON.'
+    ' updf: an update during which the n-th round trip to the database serv'
+    'er loses its request or its reply; when it fails loudly it is run agai'
+    'n. Crash steps include copies (before / destination half written / aft'
+    'er). '
 )
 ASSUMPTIONS = [
     'a crash happens at a step boundary and every completed step is durable '
